@@ -139,7 +139,7 @@ func getC09Fixture() *c09fix {
 	g := mkBlock("G", nil, 0)
 	f.genesis = g
 	// main chain
-	t1 := tx(10, []wire.OutPoint{rnd(1)}, f.scriptX, f.scriptY) // pays X and Y
+	t1 := tx(10, []wire.OutPoint{rnd(1)}, f.scriptX, f.scriptY)             // pays X and Y
 	t2 := tx(11, []wire.OutPoint{{Hash: t1.TxHash(), Index: 1}}, other(40)) // spends t1:1 (Y)
 	t3 := tx(12, []wire.OutPoint{{Hash: t1.TxHash(), Index: 0}}, other(41)) // spends t1:0 (X)
 	t4 := tx(13, []wire.OutPoint{f.preOut}, other(42))                      // spends the pre-watched outpoint
